@@ -1072,6 +1072,54 @@ def rule_union_tag(ctx, cd, which: str, rule_id: str):
                            "" if ok else f"comparison operators {[(a or d_) for a, _b, _c, d_ in ms]}", node.lineno)
 
 
+def rule_nested_window(ctx, cd, rule_id: str):
+    """Serializing a nested composite: the nested routine is given a window that starts behind the place reserved for the delimiter
+    header (delimited types) or at the cursor (sealed types), and whose size is the largest the nested type can need."""
+    ctx.rule(
+        rule_id,
+        "C and C++ _serialize_composite, every path: the size variable handed to the nested serializer starts as "
+        "t.inner_type.bit_length_set.max | bits2bytes_ceil; C++: the window is out_buffer.subspan(<delimiter header bits>, size * 8U) for "
+        "delimited types and subspan(0U, size * 8U) for sealed ones; C: the nested routine writes at &buffer[offset_bits / 8U] with that "
+        "size variable, after the cursor has moved over the header (delimited) or not at all (sealed)",
+    )
+    n = 0
+    for lang in ("c", "cpp"):
+        t = cd.tmpl(lang, "ser")
+        seen = set()
+        for p in cd.paths(lang, "ser", "_serialize_composite"):
+            deli = ("(t is DelimitedType)", True) in p.conds
+            text = cd.text(lang, p)
+            label = ("delimited" if deli else "sealed") + (", fixed size" if ("t.inner_type.bit_length_set.fixed_length", True) in p.conds else ", variable size")
+            if (lang, label) in seen:
+                continue
+            seen.add((lang, label))
+            hdr = p.name_of("t.delimiter_header_type.bit_length")
+            mi = re.search(r"(Pz\d+z) = (Pz\d+z)U?L?L? ?;", text)
+            sz = mi.group(1) if mi and (p.xs_of(mi.group(2)) or "") == "(t.inner_type.bit_length_set.max | bits2bytes_ceil)" else None
+            n += 1
+            ctx.ob(rule_id, t.rel, f"{lang}: _serialize_composite [{label}]: the nested size starts as the largest size of the nested type, in bytes", sz is not None,
+                   "" if sz is not None else "the window handed to the nested serializer is not sized by t.inner_type.bit_length_set.max | bits2bytes_ceil")
+            if lang == "cpp":
+                mw = re.search(r"\.subspan\( ?(\w+?)U? ?, ?(Pz\d+z) \* 8U ?\)", text)
+                first = (p.xs_of(mw.group(1)) or mw.group(1)) if mw else None      # a printed variable stands for what it is bound to on this path
+                ok = mw is not None and mw.group(2) == sz and ((deli and first == "t.delimiter_header_type.bit_length") or (not deli and first == "0"))
+                ctx.ob(rule_id, t.rel, f"cpp: _serialize_composite [{label}]: window = subspan({'header bits' if deli else '0U'}, size * 8U)", ok,
+                       "" if ok else f"window is {mw.group(0) if mw else 'not found'}: the nested object overlaps the delimiter header / starts off the cursor")
+            else:
+                mc = re.search(r"_serialize_ ?\( ?&Pz\d+z, &buffer\[offset_bits / 8U\], &(Pz\d+z) ?\)", text)
+                before = text[:mc.start()] if mc else ""
+                moved = [m_.group(1) for m_ in re.finditer(r"offset_bits \+= (\w+?)U? ?;", before)]
+                hdr_macro = any(isinstance(k_, str) and k_.lstrip("(").startswith("_serialize_integer(t.delimiter_header_type,") and n_ in before for n_, k_ in p.ph)
+                if deli:
+                    okm = (moved == [hdr] and hdr is not None and not hdr_macro) or (moved == [] and hdr_macro)
+                else:
+                    okm = moved == [] and not hdr_macro
+                ok = mc is not None and mc.group(1) == sz and okm
+                ctx.ob(rule_id, t.rel, f"c: _serialize_composite [{label}]: nested routine writes at the cursor {'behind the header' if deli else '(no header)'} with the size variable", ok,
+                       "" if ok else f"cursor moves before the nested call: {moved}, header emitted by macro: {hdr_macro}")
+    ctx.floor(rule_id, n, 6)
+
+
 # ---- what the padding macro itself emits -------------------------------------------------------------------------------------
 def rule_pad_body(ctx, cd, which: str, rule_id: str):
     """The padding macros: the serializer writes zeros into the gap through the bounds-checked primitive (or with a mask that keeps
